@@ -37,8 +37,10 @@ TRUSTED_BASE = [
     "reference counting as 'collect everything unreachable after every statement' (judge side only; the "
     "theorem quantifies over every valid collector)",
     "tools/sitegen/mlir.py (AST extractor of _hold_ref / owns_memory / keyword / array-order facts), fail-closed",
-    "formats._determine_format is hand-transcribed (Model/Mlir.v: determine_format) and tied by correspondence "
-    "only (judge_detfmt on generated format lists, judge_opfmt on every add/reshape result)",
+    "formats._determine_format: scalar decisions translated by tools/py2v.py into Gen/S_mlir_df.v and proved equal "
+    "to the model's sub-expressions (determine_format_source_tie); loop header, the tuple-slicing order update and "
+    "keyword wiring are pinned by text in tools/sitegen/mlir.py and transcribed by hand (order_step), additionally "
+    "tied by correspondence (judge_detfmt on generated format lists, judge_opfmt on every add/reshape result)",
     "correspondence harness tools/props/c20.py, tools/vlib.py; the Python builders of constituent arrays for "
     "CSF/COO inputs (cross-checked: every built array is read back through the Coq layout model)",
 ]
@@ -1113,9 +1115,14 @@ def campaign(build, tier, seed, report, budget=1):
         json.dump(viol, open(os.environ["VERIF_C20_DUMP"], "w"), default=str)
     cov["unproved_statements"] = [
         "values computed inside JIT-compiled MLIR modules (oracle; differential only)",
-        "to_numpy order inversion (to_numpy_order_correct) is proved for ranks 1..4 by enumeration of the 33 "
-        "permutations (bound in the statement), not for arbitrary rank",
-        "_determine_format is tied to the source by correspondence, not by translation",
+        "MLIR runtime allocator behaviour / memory safety inside compiled code (outside the model)",
+        "_determine_format's order update (tuple slicing) and loop structure: pinned by text + correspondence, "
+        "not translated",
+        "build-then-read inverse for CSF/COO patterns (that the nonzeros of an arbitrary dense array, laid out as "
+        "pos/crd/values, read back to that array): checked per case by judge_layout, not proved; "
+        "roundtrip_layout_* prove the reading = the nested-loop meaning for every array contents",
+        "NumPy's base-collapse rule and mlir_finch's view wrapping are modelled by hand (EDerive/ECollapse, "
+        "wrapped_dtype), tied by correspondence only",
     ]
     return viol
 
